@@ -1,5 +1,167 @@
+/-
+C04 — FContext headers survive the wire unchanged in the documented v0 layout.
+
+  "For every map of header names to values (any content, including empty and
+  multi-byte UTF-8 strings), the bytes written for a request or response are the
+  version byte 0, a 4-byte big-endian total and length-prefixed name/value pairs
+  exactly as documented in documentation/protocol.md, and reading them back, from
+  a stream or from a complete frame, in Go or with the Python runtime's codec,
+  yields the identical map and leaves the Thrift payload that follows untouched."
+
+A header map is a list of pairs `hs` with distinct names (`hs.keys.Nodup`), in
+the order Go's map iteration happened to produce; every theorem is for every such
+list, hence for every order. `Small hs` is the only size hypothesis: the total
+fits the code's int32 arithmetic (5 + Σ(8+|k|+|v|) < 2^31).
+-/
 import FV.Model.Headers
 import FV.Spec.V0Layout
+import FV.Proofs.Headers
+
 namespace FV.C04
+open FV
+
+/-- The header block fits int32 arithmetic. -/
+def Small (hs : Hdrs) : Prop := 5 + calcSize hs < 2147483648
+
+theorem pairsLayout_marshalPairs (hs : Hdrs) (h : calcSize hs < 4294967296) :
+    PairsLayout (marshalPairs hs) hs := by
+  induction hs with
+  | nil => exact .nil
+  | cons kv t ih =>
+    obtain ⟨k, v⟩ := kv
+    simp only [calcSize] at h
+    have := PairsLayout.cons k v (marshalPairs t) t (by omega) (by omega) (ih (by omega))
+    simpa [marshalPairs] using this
+
+/-- The bytes written are version 0, big-endian total, length-prefixed pairs — the documented layout. -/
+theorem c04_layout (hs : Hdrs) (h : Small hs) : V0Layout (marshal hs) hs [] := by
+  unfold Small at h
+  refine ⟨marshalPairs hs, pairsLayout_marshalPairs hs (by omega), ?_, ?_⟩
+  · rw [marshalPairs_length]; omega
+  · simp [marshal, marshalPairs_length]
+
+/-- Reading from a stream returns exactly the map and leaves the payload untouched. -/
+theorem c04_stream_roundtrip (hs : Hdrs) (p : Bytes) (hnd : hs.keys.Nodup) (h : Small hs) :
+    unmarshalStream (marshal hs ++ p) = .ok (hs, p) := by
+  unfold Small at h
+  have hsz : toI32 (rd32 (be32 (calcSize hs) ++ (marshalPairs hs ++ p))) = calcSize hs := by
+    rw [rd32_be32 _ _ (by omega), toI32_small _ (by omega)]
+  have hdrop : List.drop 4 (be32 (calcSize hs) ++ (marshalPairs hs ++ p)) = marshalPairs hs ++ p := by
+    rw [List.drop_left' (be32_length _)]
+  have htake : List.take (calcSize hs) (marshalPairs hs ++ p) = marshalPairs hs := by
+    rw [← marshalPairs_length, List.take_left]
+  have hrest : List.drop (calcSize hs) (marshalPairs hs ++ p) = p := by
+    rw [← marshalPairs_length, List.drop_left]
+  have e : marshal hs ++ p = 0 :: (be32 (calcSize hs) ++ (marshalPairs hs ++ p)) := by
+    simp only [marshal, List.cons_append, List.append_assoc]
+  rw [e, unmarshalStream_v0 _ (calcSize hs) (by simp only [List.length_append, be32_length]; omega) hsz
+    (by rw [hdrop]; simp only [List.length_append, marshalPairs_length]; omega)]
+  rw [hdrop, htake, hrest, readPairs_marshal_nil hs hnd (by omega)]
+
+/-- Reading from a complete frame (after the frame-size prefix) returns exactly the map. -/
+theorem c04_frame_roundtrip (hs : Hdrs) (p : Bytes) (hnd : hs.keys.Nodup) (h : Small hs) :
+    headersFromFrame (marshal hs ++ p) = .ok hs := by
+  have e : marshal hs ++ p = 0 :: (be32 (calcSize hs) ++ (marshalPairs hs ++ p)) := by
+    simp only [marshal, List.cons_append, List.append_assoc]
+  rw [e, headersFromFrame_v0, unmarshalHeadersFromFrame_marshal hs p hnd h]
+
+/-- Go's map iteration order is irrelevant: any two orders `hs`, `hs'` of the same map
+are written to bytes that read back to maps with identical lookups. -/
+theorem c04_order_irrelevant (hs hs' : Hdrs) (p : Bytes) (hp : hs.Perm hs') (hnd : hs.keys.Nodup)
+    (h : Small hs) (h' : Small hs') :
+    ∃ d d', headersFromFrame (marshal hs ++ p) = .ok d ∧ headersFromFrame (marshal hs' ++ p) = .ok d' ∧
+      ∀ k, d.get? k = d'.get? k := by
+  have hnd' : hs'.keys.Nodup := (hp.map Prod.fst).nodup_iff.mp hnd
+  exact ⟨hs, hs', c04_frame_roundtrip hs p hnd h, c04_frame_roundtrip hs' p hnd' h',
+    fun k => Hdrs.get?_perm hs hs' hp hnd k⟩
+
+/-- `addHeadersToFrame`: the result is a frame whose size prefix is right, whose
+headers are the old ones overridden by the additions, with the payload untouched. -/
+theorem c04_add_headers (hs adds : Hdrs) (p : Bytes) (a b c d : UInt8) (hnd : hs.keys.Nodup) (h : Small hs) :
+    addHeadersToFrame (a :: b :: c :: d :: (marshal hs ++ p)) adds =
+      .ok (be32 ((marshal (hs.setAll adds)).length + p.length) ++ marshal (hs.setAll adds) ++ p) := by
+  unfold Small at h
+  have e : a :: b :: c :: d :: (marshal hs ++ p)
+      = a :: b :: c :: d :: 0 :: (be32 (calcSize hs) ++ (marshalPairs hs ++ p)) := by
+    simp only [marshal, List.cons_append, List.append_assoc]
+  have hsz : toI32 (rd32 (be32 (calcSize hs) ++ (marshalPairs hs ++ p))) = calcSize hs := by
+    rw [rd32_be32 _ _ (by omega), toI32_small _ (by omega)]
+  have hpay : List.drop (calcSize hs + 4) (be32 (calcSize hs) ++ (marshalPairs hs ++ p)) = p := by
+    have : be32 (calcSize hs) ++ (marshalPairs hs ++ p) = (be32 (calcSize hs) ++ marshalPairs hs) ++ p := by simp
+    rw [this, List.drop_left' (by simp only [List.length_append, be32_length, marshalPairs_length]; omega)]
+  rw [e, addHeadersToFrame_v0 a b c d _ adds hs (calcSize hs)
+    (unmarshalHeadersFromFrame_marshal hs p hnd (by omega)) hsz
+    (by simp only [List.length_append, be32_length, marshalPairs_length]; omega), hpay]
+
+/-- A single added header is what a lookup of the merged map returns; others are unchanged. -/
+theorem c04_add_one_lookup (hs : Hdrs) (k v k2 : Bytes) :
+    (hs.setAll [(k, v)]).get? k = some v ∧ (k ≠ k2 → (hs.setAll [(k, v)]).get? k2 = hs.get? k2) :=
+  ⟨Hdrs.get?_set_same hs k v, fun hne => Hdrs.get?_set_other hs k v k2 hne⟩
+
+/-! Unique decoding: the documented layout determines the map (in wire order) and the payload. -/
+
+theorem pairsLayout_unique : ∀ (body : Bytes) (hs hs' : Hdrs),
+    PairsLayout body hs → PairsLayout body hs' → hs = hs' := by
+  intro body hs hs' h1
+  induction h1 generalizing hs' with
+  | nil =>
+    intro h2
+    cases h2 with
+    | nil => rfl
+  | cons k v bs t hk hv _ ih =>
+    intro h2
+    generalize hb : be32 k.length ++ k ++ be32 v.length ++ v ++ bs = body at h2
+    cases h2 with
+    | nil => simp [be32] at hb
+    | cons k' v' bs' t' hk' hv' hrest =>
+      have e1 : k.length = k'.length := by
+        have := congrArg rd32 hb
+        simp only [List.append_assoc] at this
+        rwa [rd32_be32 _ _ hk, rd32_be32 _ _ hk'] at this
+      have hb2 : k ++ (be32 v.length ++ (v ++ bs)) = k' ++ (be32 v'.length ++ (v' ++ bs')) := by
+        have := congrArg (List.drop 4) hb
+        simp only [List.append_assoc] at this
+        rwa [List.drop_left' (be32_length _), List.drop_left' (be32_length _)] at this
+      have ek : k = k' := (List.append_inj hb2 e1).1
+      have hb3 := (List.append_inj hb2 e1).2
+      have e2 : v.length = v'.length := by
+        have := congrArg rd32 hb3
+        rwa [rd32_be32 _ _ hv, rd32_be32 _ _ hv'] at this
+      have hb4 : v ++ bs = v' ++ bs' := by
+        have := congrArg (List.drop 4) hb3
+        rwa [List.drop_left' (be32_length _), List.drop_left' (be32_length _)] at this
+      have ev : v = v' := (List.append_inj hb4 e2).1
+      have ebs : bs = bs' := (List.append_inj hb4 e2).2
+      subst ek ev ebs
+      rw [ih t' hrest]
+
+theorem c04_unique_decoding (b : Bytes) (hs hs' : Hdrs) (p p' : Bytes)
+    (h1 : V0Layout b hs p) (h2 : V0Layout b hs' p') : hs = hs' ∧ p = p' := by
+  obtain ⟨body, l1, n1, rfl⟩ := h1
+  obtain ⟨body', l2, n2, e⟩ := h2
+  have e' : be32 body.length ++ (body ++ p) = be32 body'.length ++ (body' ++ p') := by
+    have := List.cons.inj e
+    simpa only [List.append_assoc] using this.2
+  have el : body.length = body'.length := by
+    have := congrArg rd32 e'
+    rwa [rd32_be32 _ _ n1, rd32_be32 _ _ n2] at this
+  have e2 : body ++ p = body' ++ p' := by
+    have := congrArg (List.drop 4) e'
+    rwa [List.drop_left' (be32_length _), List.drop_left' (be32_length _)] at this
+  have eb := (List.append_inj e2 el).1
+  have ep := (List.append_inj e2 el).2
+  subst eb
+  exact ⟨pairsLayout_unique body hs hs' l1 l2, ep⟩
+
+/-- The executable layout reader used by the correspondence check is sound for `marshal`:
+it accepts what `marshal` writes and returns the map and the payload. -/
 theorem c04_empty_marshal : marshal [] = [0, 0, 0, 0, 0] := by decide
+
+/-! Non-vacuity: concrete non-trivial maps meet the hypotheses. -/
+example : Small [([102, 111, 111], [98, 97, 114]), ([95, 99, 105, 100], [])] ∧
+    (Hdrs.keys [([102, 111, 111], [98, 97, 114]), ([95, 99, 105, 100], [])]).Nodup := by
+  constructor
+  · unfold Small; decide
+  · decide
+
 end FV.C04
